@@ -352,9 +352,60 @@ static std::string oracle_analyse(const RCP<const Basic> &e, const Out &nd, cons
     return o;
 }
 
+// the 12 classes the rewrite visitors replace
+static bool is_trig_hyp(const Basic &b)
+{
+    switch (b.get_type_code()) {
+        case SYMENGINE_SIN: case SYMENGINE_COS: case SYMENGINE_TAN: case SYMENGINE_COT: case SYMENGINE_CSC:
+        case SYMENGINE_SEC: case SYMENGINE_SINH: case SYMENGINE_COSH: case SYMENGINE_TANH: case SYMENGINE_COTH:
+        case SYMENGINE_CSCH: case SYMENGINE_SECH:
+            return true;
+        default:
+            return false;
+    }
+}
+static bool contains_trig_hyp(const RCP<const Basic> &e)
+{
+    if (is_trig_hyp(*e))
+        return true;
+    for (const auto &a : e->get_args())
+        if (contains_trig_hyp(a))
+            return true;
+    return false;
+}
+// a function with a branch cut (non-integer power, log, inverse functions) applied to something that is
+// rewritten: a value ON the cut (e.g. csc(5)**y, csc(5) < 0) is reached from either side after rewriting,
+// so "both sides defined" does not make them comparable numerically; such inputs are left to the tie
+static bool cut_over_rewritten(const RCP<const Basic> &e)
+{
+    bool cut = false;
+    switch (e->get_type_code()) {
+        case SYMENGINE_POW:
+            cut = not is_a<Integer>(*down_cast<const Pow &>(*e).get_exp());
+            break;
+        case SYMENGINE_LOG: case SYMENGINE_ASIN: case SYMENGINE_ACOS: case SYMENGINE_ASEC: case SYMENGINE_ACSC:
+        case SYMENGINE_ATAN: case SYMENGINE_ACOT: case SYMENGINE_ATAN2: case SYMENGINE_ASINH: case SYMENGINE_ACSCH:
+        case SYMENGINE_ACOSH: case SYMENGINE_ATANH: case SYMENGINE_ACOTH: case SYMENGINE_ASECH:
+        case SYMENGINE_LAMBERTW: case SYMENGINE_SIGN: case SYMENGINE_FLOOR: case SYMENGINE_CEILING:
+            cut = true;
+            break;
+        default:
+            break;
+    }
+    for (const auto &a : e->get_args()) {
+        if (cut and contains_trig_hyp(a))
+            return true;
+        if (cut_over_rewritten(a))
+            return true;
+    }
+    return false;
+}
+
 static std::string oracle_rewrite(const std::string &op, const RCP<const Basic> &e, const Out &r)
 {
     if (not r.ok)
+        return "";
+    if ((op == "EXP" or op == "SIN" or op == "COS") and cut_over_rewritten(e))
         return "";
     // a symbol-free input is a single point, typically on the branch cuts of the inverse functions
     if (free_symbols(*e).empty())
